@@ -124,7 +124,7 @@ CHECKS = {
         "text": "Decides the structural clauses of the FITS round trip for every shape / value / flip setting: the flip points (2-D HDU writer, 2-D file reader, flip_hdu_for_ds9) apply np.flipud exactly once under "
                 "general.fits.flip_for_ds9 and return the unflipped value otherwise, the 1-D utils never flip; per class and per route (file / HDU) writer and reader apply the same number of flips (one for Array2D, Mask2D, Kernel2D, "
                 "Visibilities, Grid2D; none for Array1D, Mask1D) with no raw flip elsewhere on the path; every PrimaryHDU / writeto is created in the designated utils (who-may-call); an existing file is removed before writing "
-                "iff overwrite is requested and writeto never overwrites; os.makedirs is reached only for a non-empty, missing directory component; header keys written on reachable branches equal the keys the readers consume and "
+                "iff overwrite is requested and writeto never overwrites; os.makedirs is reached only for a non-empty, missing directory component; header keys written on reachable branches equal the keys the readers consume, every (key, value) of header_dict is written into the header the HDU is built from (guarded only by its None test), and "
                 "every reader rebuilds with the header's pixel scale; writers hand over native values (masks as float), masks are converted back to booleans. Known finding (listed): anisotropic pixel scales are written as a single "
                 "PIXSCALE because the PIXSCALEY/X branch is dead. Not decided: astropy's value fidelity.",
         "note": "Trusted: Python ast, E1 resolver and call graph, astropy.io.fits, os / os.path semantics.",
